@@ -1,4 +1,5 @@
 """Uniform access to model arrays (np_lite) and real numpy arrays, so that one oracle serves CrossHair and replay."""
+import os
 import np_lite
 
 
@@ -64,6 +65,116 @@ def load_real_cd():
 _STACK = {}
 
 
+SET_ORDER = [0]     # which iteration order unordered containers use right now (a different process = a different value)
+
+
+class OrderFreeSet:
+  """Model of a hash set of str/bytes ids: iteration order is NOT a function of the contents (CPython randomises the
+  hash seed per process).  The order is sorted(contents) rotated by SET_ORDER[0] // 2 and reversed when SET_ORDER[0] is
+  odd; code whose result must be reproducible may not depend on it.  Membership is by `==` over a list (a real hash set
+  would force CrossHair to realise a symbolic probe id value by value)."""
+
+  def __init__(self, it=()):
+    self._items = []
+    for x in it:
+      self.add(x)
+
+  def _has(self, x):
+    for y in self._items:
+      if x == y:
+        return True
+    return False
+
+  def add(self, x):
+    if not self._has(x):
+      self._items.append(x)
+
+  def discard(self, x):
+    self._items = [y for y in self._items if not (x == y)]
+
+  def remove(self, x):
+    if not self._has(x):
+      raise KeyError(x)
+    self.discard(x)
+
+  def __contains__(self, x):
+    return self._has(x)
+
+  def __len__(self):
+    return len(self._items)
+
+  def __bool__(self):
+    return bool(self._items)
+
+  def __iter__(self):
+    items = sorted(self._items)
+    k = SET_ORDER[0]
+    if items:
+      r = (k // 2) % len(items)
+      items = items[r:] + items[:r]
+    if k % 2:
+      items.reverse()
+    return iter(items)
+
+  def copy(self):
+    return OrderFreeSet(self._items)
+
+  def difference(self, *others):
+    out = self.copy()
+    for o in others:
+      for x in list(o):
+        out.discard(x)
+    return out
+
+  def union(self, *others):
+    out = self.copy()
+    for o in others:
+      for x in list(o):
+        out.add(x)
+    return out
+
+  def intersection(self, *others):
+    out = self.copy()
+    for o in others:
+      o = list(o)
+      out = OrderFreeSet(x for x in out._items if any(x == y for y in o))
+    return out
+
+  def issubset(self, other):
+    o = list(other)
+    return all(any(x == y for y in o) for x in self._items)
+
+  __sub__ = difference
+  __or__ = union
+  __and__ = intersection
+
+  def __isub__(self, other):      # in place, like set.__isub__: every holder of this object sees the change
+    for x in list(other):
+      self.discard(x)
+    return self
+
+  def __ior__(self, other):
+    for x in list(other):
+      self.add(x)
+    return self
+
+  def __iand__(self, other):
+    o = list(other)
+    self._items = [x for x in self._items if any(x == y for y in o)]
+    return self
+
+  def __eq__(self, other):
+    if not isinstance(other, (OrderFreeSet, set, frozenset)):
+      return NotImplemented
+    o = list(other)
+    return len(o) == len(self._items) and all(any(x == y for y in o) for x in self._items)
+
+  __hash__ = None
+
+  def __repr__(self):
+    return 'OrderFreeSet(%r)' % (sorted(self._items),)
+
+
 def load_model_stack():
   """client_datasets, federated_data, in_memory_federated_data loaded from the real sources over np_lite."""
   if _STACK:
@@ -75,6 +186,7 @@ def load_model_stack():
                         attr_overrides={('fedjax.core', 'client_datasets'): cdm})
   imm = xload.load_real('fedjax/core/in_memory_federated_data.py', 'imfd_sym', {'numpy': np_lite},
                         attr_overrides={('fedjax.core', 'client_datasets'): cdm, ('fedjax.core', 'federated_data'): fdm})
+  fdm.set = OrderFreeSet      # the module's `set(...)` calls (and isinstance(x, set)) refer to the order-free model
   _STACK.update(cd=cdm, fd=fdm, im=imm)
   return _STACK
 
